@@ -8,6 +8,7 @@ import (
 	"go/constant"
 	"go/token"
 	"go/types"
+	"golang.org/x/tools/go/cfg"
 	"sort"
 	"strings"
 
@@ -80,9 +81,17 @@ func ruleMODE1(c *Ctx) {
 		}
 		ok := pushCall != nil && setMode != nil && pushCall.End() <= setMode.Pos()
 		okArg := false
+		staleWhy := ""
 		if pushCall != nil && len(pushCall.Args) == 1 {
 			if usesObj(info, pushCall.Args[0]) == r.modeVar && (!reassigned(info, r.fd, r.modeVar) || localInSyncWithField(info, r.fd, r.modeVar, modeField)) {
-				okArg = true
+				// the local is a copy of the field taken earlier: it is the *current* table at the push only
+				// if no store to the field can reach the push without the local being refreshed (an earlier
+				// mode action of the same rule changes the field inside the action loop)
+				if at, stale := staleAliasAt(info, r.fd, r.modeVar, modeField, pushCall); stale {
+					staleWhy = fmt.Sprintf("; `%s` was copied from the mode field before the store at %s, which reaches the push (a rule with two mode actions, e.g. @pop_mode @push_mode(M), pushes the table that was current when PushRune was entered)", exprString(pushCall.Args[0]), ti.Pos(at))
+				} else {
+					okArg = true
+				}
 			}
 			if fv, _ := selField(info, pushCall.Args[0]); fv == modeField {
 				okArg = true
@@ -99,7 +108,7 @@ func ruleMODE1(c *Ctx) {
 		}
 		c.check(ok && okArg && okNew, rule, "template/PushRune/push-arm", ti.Pos(arm.Pos()),
 			"push: the current table is pushed before the mode field is overwritten with _lexerModes[parameter]",
-			fmt.Sprintf("push arm breaks the stack discipline (push before overwrite: %v, pushes the current table: %v, new table = _lexerModes[param]: %v)", ok, okArg, okNew))
+			fmt.Sprintf("push arm breaks the stack discipline (push before overwrite: %v, pushes the current table: %v, new table = _lexerModes[param]: %v)%s", ok, okArg, okNew, staleWhy))
 	}
 	// pop arm
 	if arm := r.arms[qv]; arm == nil {
@@ -258,6 +267,62 @@ func localInSyncWithField(info *types.Info, fd *ast.FuncDecl, v types.Object, fi
 		return true
 	})
 	return ok
+}
+
+// staleAliasAt: v is a local copy of field. Reports a store to field from which the node `use` is
+// reachable in the CFG without passing an assignment that refreshes v from the field (or pairs the
+// two), i.e. a path on which v no longer holds the field's value at use.
+func staleAliasAt(info *types.Info, fd *ast.FuncDecl, v types.Object, field *types.Var, use ast.Node) (token.Pos, bool) {
+	g := cfg.New(fd.Body, func(call *ast.CallExpr) bool { return mayReturn(info, call) })
+	refresh := func(n ast.Node) bool {
+		as, ok := n.(*ast.AssignStmt)
+		if !ok {
+			return false
+		}
+		for i, l := range as.Lhs {
+			if _, isSel := ast.Unparen(l).(*ast.SelectorExpr); isSel || usesObj(info, l) != v || i >= len(as.Rhs) {
+				continue
+			}
+			if rf, _ := selField(info, as.Rhs[i]); rf == field {
+				return true
+			}
+		}
+		return false
+	}
+	var found token.Pos
+	for _, b := range g.Blocks {
+		if !b.Live {
+			continue
+		}
+		for i, n := range b.Nodes {
+			as, ok := n.(*ast.AssignStmt)
+			if !ok {
+				continue
+			}
+			stores := false
+			for j, l := range as.Lhs {
+				if lf, _ := selField(info, l); lf == field {
+					// field = v keeps them equal
+					if j < len(as.Rhs) && usesObj(info, as.Rhs[j]) == v {
+						continue
+					}
+					stores = true
+				}
+			}
+			if !stores {
+				continue
+			}
+			cfgForward(g, []cfgPos{{b, i}}, false, refresh, func(m ast.Node) {
+				if !found.IsValid() && containsNode(m, use) {
+					found = as.Pos()
+				}
+			})
+			if found.IsValid() {
+				return found, true
+			}
+		}
+	}
+	return token.NoPos, false
 }
 
 func reassigned(info *types.Info, fd *ast.FuncDecl, v types.Object) bool {
@@ -753,7 +818,7 @@ func ruleMODE3(c *Ctx) {
 	for _, u := range ta.Set.Uses {
 		if fl := funcLitOf(c.Prog, ta.Set.Pkg.TypesInfo, u.Binds["modes"]); fl != nil {
 			ast.Inspect(fl, func(m ast.Node) bool {
-				if call, ok := m.(*ast.CallExpr); ok && sortFuncs[fullName(calleeFunc(ta.Set.Pkg.TypesInfo, call))] && len(call.Args) == 2 {
+				if call, ok := m.(*ast.CallExpr); ok && (sortFuncs[fullName(calleeFunc(ta.Set.Pkg.TypesInfo, call))] || fullName(calleeFunc(ta.Set.Pkg.TypesInfo, call)) == "slices.SortedFunc") && len(call.Args) == 2 {
 					if cmp, ok := call.Args[1].(*ast.FuncLit); ok {
 						idx := 0
 						ast.Inspect(cmp, func(k ast.Node) bool {
